@@ -528,6 +528,7 @@ StressDepths == IF Bound <= 1 THEN {1, 2, 3, 8} ELSE {1, 3, 17, 120, Bound}
 StressChoices(c) == CASE Len(c) = 0 -> StressKinds [] Len(c) = 1 -> StressDepths [] OTHER -> {}
 Head2 == <<KV("Identifier", "T"), KV("Pipe", ""), KV("Identifier", "where")>>
 A == KV("Identifier", "a")
+Nm(v) == KV("Number", v)
 StressToks(c) ==
   LET n == c[2] IN
   CASE c[1] = "parens" -> Head2 \o Rep(<<KV("LParen", "")>>, n) \o <<A>> \o Rep(<<KV("RParen", "")>>, n)
@@ -666,6 +667,39 @@ ScopeSc(c) == [params |-> SetupParams(c[1]),
                            [n |-> SetupBefore(c[1], c[2])[i].name.name, x |-> SetupBefore(c[1], c[2])[i].x]]]
 
 ---------------------------------------------------------------------------
+(* family stmtseq: two or three statements, each well formed or broken in   *)
+(* a way that could make a parser run on into the next one, separated by    *)
+(* semicolons; tokens only (C15: Parse, SplitStatements and Scan must agree *)
+(* on where statements end; C08 / C12)                                      *)
+
+IdT(v) == KV("Identifier", v)
+StmtTokMenu == <<
+  <<IdT("let"), IdT("x"), KV("Assign", ""), Nm("1")>>,                                        \* let x = 1
+  <<IdT("let"), IdT("x")>>,                                                                  \* let x
+  <<IdT("let"), IdT("x"), KV("Assign", "")>>,                                                \* let x =
+  <<IdT("let"), IdT("x"), KV("Assign", ""), IdT("f"), KV("LParen", ""), Nm("1")>>,            \* let x = f(1
+  <<IdT("let"), IdT("x"), KV("Assign", ""), IdT("a"), KV("LBracket", ""), Nm("1")>>,          \* let x = a[1
+  <<IdT("let"), KV("Assign", ""), Nm("5")>>,                                                 \* let = 5
+  <<IdT("T"), KV("Pipe", ""), IdT("count")>>,                                                \* T | count
+  <<IdT("T"), KV("Pipe", ""), IdT("where"), KV("LParen", ""), IdT("a")>>,                     \* T | where (a
+  <<IdT("T"), KV("Pipe", ""), IdT("where"), IdT("a"), KV("RBracket", "")>>,                   \* T | where a]
+  <<IdT("T"), KV("Pipe", ""), IdT("join"), KV("LParen", ""), IdT("B"), KV("Pipe", ""), IdT("count")>>,  \* T | join (B | count
+  <<IdT("T"), KV("Pipe", ""), IdT("take"), Nm("5")>>,                                        \* T | take 5
+  <<IdT("U")>>,                                                                              \* U
+  <<>>,                                                                                      \* (empty)
+  <<IdT("T"), KV("Pipe", ""), IdT("where"), IdT("a"), KV("Eq", ""), KV("Raw", "'x")>>          \* T | where a == 'x   (unterminated)
+>>
+StmtSeqChoices(c) ==
+  CASE Len(c) \in {0, 1} -> DOMAIN StmtTokMenu
+    [] Len(c) = 2 -> (DOMAIN StmtTokMenu) \cup {0}
+    [] Len(c) = 3 -> {"semi", "none"}
+    [] OTHER -> {}
+StmtSeqToks(c) ==
+  StmtTokMenu[c[1]] \o <<KV("Semi", "")>> \o StmtTokMenu[c[2]]
+  \o (IF c[3] = 0 THEN <<>> ELSE <<KV("Semi", "")>> \o StmtTokMenu[c[3]])
+  \o (IF c[4] = "semi" THEN <<KV("Semi", "")>> ELSE <<>>)
+
+---------------------------------------------------------------------------
 (* family wide: long lists in every list position (the nests of family     *)
 (* stress are deep; these are wide, and they are valid programs)           *)
 
@@ -701,7 +735,6 @@ WideItems(c) ==
 (* the parser accepts must be accounted for; an error found in an earlier   *)
 (* group must not be forgotten because a later group is fine)               *)
 
-Nm(v) == KV("Number", v)
 GroupMenu == <<
   <<KV("LBracket", ""), Nm("0"), KV("RBracket", "")>>,                       \* [0]
   <<KV("LBracket", ""), Nm("0"), Nm("1"), KV("RBracket", "")>>,              \* [0 1]
@@ -773,6 +806,7 @@ ChoicesOf(fam, c) ==
     [] fam = "stress" -> StressChoices(c)
     [] fam = "groups" -> GroupsChoices(c)
     [] fam = "wide" -> WideChoices(c)
+    [] fam = "stmtseq" -> StmtSeqChoices(c)
     [] fam = "scope" -> ScopeChoices(c)
 
 BuildOf(fam, c) ==
@@ -872,6 +906,7 @@ EmitCase ==
                                     alt |-> IF Family = "scope" THEN Toks(ScopeAlt(ch)) ELSE <<>>]))
     ELSE PrintT("CASE " \o ToJson([fam |-> Family, ch |-> ch,
                                     toks |-> IF Family = "corrupt" THEN CorruptToks(ch)
-                                            ELSE IF Family = "groups" THEN GroupsToks(ch) ELSE StressToks(ch),
+                                            ELSE IF Family = "groups" THEN GroupsToks(ch)
+                                            ELSE IF Family = "stmtseq" THEN StmtSeqToks(ch) ELSE StressToks(ch),
                                     xp |-> "open", xc |-> "open"]))
 =============================================================================
